@@ -25,6 +25,7 @@ inductive Outc where
 inductive Exc where
   | user (e : Nat)
   | alreadyComputed     -- FutureIsAlreadyComputed
+  | notSubscribed       -- ValueError of `on_computed.unsubscribe(h)` for a handler that is not subscribed (list.remove)
   | notImplemented      -- FutureBase._compute of a future without provider (ConstFuture after reset_unsafe)
   | other               -- anything else (never produced by the model; lets the driver parse any observation)
   deriving Repr, DecidableEq, Inhabited
@@ -37,27 +38,43 @@ inductive Res where
   | unit
   deriving Repr, DecidableEq, Inhabited
 
+/-- what an on_computed subscriber does WHILE it is being notified (after recording what it sees) -/
+inductive Beh where
+  | good                 -- returns
+  | raising              -- raises an Exception
+  | oneShot              -- `f.on_computed.unsubscribe(itself)`, then returns (the classic one-shot callback)
+  | unsub (j : Nat)      -- `f.on_computed.unsubscribe(handler j)` (ValueError -> swallowed, if j is not subscribed)
+  | resub (j : Nat)      -- `f.on_computed.subscribe(new well-behaved handler j)`
+  | reenter (o : Outc)   -- calls `f.set_value(v)` / `f.set_error(e)` on the future that is notifying it, records the result
+  deriving Repr, DecidableEq, Inhabited
+
+abbrev Sub := Nat × Beh
+
 inductive Op where
   | value | error | call | isComputed
   | setValue (v : Nat) | setError (e : Nat)
   | reset
-  | subscribe (id : Nat) (raising : Bool)
+  | subscribe (id : Nat) (beh : Beh)
+  | unsubscribe (id : Nat)
   deriving Repr, DecidableEq, Inhabited
 
 def Op.name : Op → String
   | .value => "value" | .error => "error" | .call => "call" | .isComputed => "isComputed"
   | .setValue _ => "setValue" | .setError _ => "setError" | .reset => "reset" | .subscribe _ _ => "subscribe"
+  | .unsubscribe _ => "unsubscribe"
 
-/-- one notification: which subscriber, and the outcome it could read from the future at that moment -/
+/-- one notification: which subscriber, the outcome it could read from the future at that moment, and (re-entrant
+    subscribers) what its own attempt to complete the future again resulted in -/
 structure Cb where
   sub : Nat
   seen : Option Outc
+  inner : Option Res := none
   deriving Repr, DecidableEq, Inhabited
 
 structure Fut where
   kind : Kind
   out : Option Outc            -- `_value is not _none`, with `_error`
-  subs : List (Nat × Bool)     -- on_computed handlers, in subscription order
+  subs : List Sub              -- on_computed.handlers, in subscription order
   runs : Nat                   -- how often the provider / task body ran
   alive : Bool                 -- AsyncTask: `_generator is not None`
   deriving Repr, DecidableEq, Inhabited
@@ -85,10 +102,36 @@ def init (k : Kind) : Fut :=
   | .error e => { kind := k, out := some (.err e), subs := [], runs := 0, alive := false }
   | _ => { kind := k, out := none, subs := [], runs := 0, alive := true }
 
+/-- `EventHook.unsubscribe` = `list.remove`: drops the FIRST handler with that identity -/
+def eraseSub : List Sub → Nat → List Sub
+  | [], _ => []
+  | s :: ss, j => if s.1 == j then ss else s :: eraseSub ss j
+
+def hasSub (subs : List Sub) (j : Nat) : Bool := subs.any (·.1 == j)
+
+/-- the effect one notified subscriber has on the LIVE handler list -/
+def applyBeh (subs : List Sub) (s : Sub) : List Sub :=
+  match s.2 with
+  | .oneShot => eraseSub subs s.1
+  | .unsub j => eraseSub subs j
+  | .resub j => subs ++ [(j, .good)]
+  | _ => subs
+
+/-- the handler list after a notification round: `safe_trigger` walks a COPY (`list(self.handlers)`) taken when the
+    round starts, every handler of the copy is called in order and edits the live list -/
+def afterNotify (subs : List Sub) : List Sub := subs.foldl applyBeh subs
+
+/-- a re-entrant `set_value` / `set_error` from inside a notification finds the future computed -/
+def expInner : Beh → Option Res
+  | .reenter _ => some (.raised .alreadyComputed)
+  | _ => none
+
+def notif (o : Outc) (s : Sub) : Cb := { sub := s.1, seen := some o, inner := expInner s.2 }
+
 /-- `set_value` / `set_error` on an uncomputed future: store, then `_computed` (AsyncTask closes its
-    generator first), then notify every subscriber, swallowing their `Exception`s. -/
+    generator first), then notify every subscriber of the snapshot, swallowing their `Exception`s. -/
 def complete (f : Fut) (o : Outc) : Fut × List Cb :=
-  ({ f with out := some o, alive := false }, f.subs.map fun s => { sub := s.1, seen := some o })
+  ({ f with out := some o, alive := false, subs := afterNotify f.subs }, f.subs.map (notif o))
 
 /-- `_compute()` of an uncomputed future: new state, notifications, and the exception `_compute` lets escape -/
 def compute (f : Fut) : Fut × List Cb × Option Exc :=
@@ -164,8 +207,12 @@ def step (f : Fut) (op : Op) : Fut × Res × List Cb :=
     | some _ => (f, .raised .alreadyComputed, [])
     | none => let (f', cbs) := complete f (.err e); (f', .unit, cbs)
   | .reset => ({ f with out := none }, .unit, [])
-  | .subscribe id raising =>
-    if f.kind.sinking then (f, .unit, []) else ({ f with subs := f.subs ++ [(id, raising)] }, .unit, [])
+  | .subscribe id beh =>
+    if f.kind.sinking then (f, .unit, []) else ({ f with subs := f.subs ++ [(id, beh)] }, .unit, [])
+  | .unsubscribe id =>   -- SinkingEventHook.unsubscribe does nothing; EventHook.unsubscribe = list.remove
+    if f.kind.sinking then (f, .unit, [])
+    else if hasSub f.subs id then ({ f with subs := eraseSub f.subs id }, .unit, [])
+    else (f, .raised .notSubscribed, [])
 
 def observe (f : Fut) (op : Op) : Fut × Obs :=
   let (f', r, cbs) := step f op
@@ -184,7 +231,7 @@ def finalState (f : Fut) : List Op → Fut
 
 structure Watch where
   known : Option Outc          -- the outcome the observer has seen the future hold (none = not computed)
-  subs : List Nat              -- subscribers the observer registered (non-sinking futures)
+  subs : List Sub              -- subscribers the observer registered (non-sinking futures), with what they do
   resets : Nat
   runs : Nat
   deriving Repr, DecidableEq, Inhabited
@@ -195,9 +242,30 @@ def watchInit (k : Kind) : Watch :=
   | .error e => { known := some (.err e), subs := [], resets := 0, runs := 0 }
   | _ => { known := none, subs := [], resets := 0, runs := 0 }
 
+/-- the subscribers of a notification round, each marked `must` (= has to be notified) unless a subscriber notified
+    EARLIER in the same round unsubscribes it before its turn (for those the statement leaves both answers open; the
+    code notifies them, because it walks a snapshot) -/
+def marks (removed : List Nat) : List Sub → List (Sub × Bool)
+  | [] => []
+  | s :: ss =>
+    (s, !(removed.contains s.1)) :: marks (match s.2 with | .unsub j => j :: removed | _ => removed) ss
+
+/-- handlers subscribed DURING the round (they may, but need not, be notified in it - at most once, at the end) -/
+def lateSubs (subs : List Sub) : List Nat :=
+  subs.filterMap fun s => match s.2 with | .resub j => some j | _ => none
+
+/-- walk the marked subscribers and the notifications together: every `must` subscriber is notified exactly once, in
+    subscription order, sees outcome `o`, and its re-entrant completion attempt (if it makes one) was refused -/
+def matchCbs (o : Outc) (late : List Nat) : List (Sub × Bool) → List Cb → Bool
+  | [], cbs => (cbs.map (·.sub)).isSublist late && cbs.all (fun c => c.seen == some o && c.inner == none)
+  | (_, must) :: ms, [] => !must && matchCbs o late ms []
+  | (s, must) :: ms, c :: cs =>
+    if c.sub == s.1 then c.seen == some o && c.inner == expInner s.2 && matchCbs o late ms cs
+    else !must && matchCbs o late ms (c :: cs)
+
 /-- every registered subscriber notified exactly once (in subscription order), each seeing outcome `o` -/
-def notifiedAll (subs : List Nat) (cbs : List Cb) (o : Outc) : Bool :=
-  cbs.map (·.sub) == subs && cbs.all (fun c => c.seen == some o)
+def notifiedAll (subs : List Sub) (cbs : List Cb) (o : Outc) : Bool :=
+  matchCbs o (lateSubs subs) (marks [] subs) cbs
 
 /-- is the result of a read consistent with outcome `o`? (`error()` may also raise the error it reports
     when this very call ran the computation - Future._compute re-raises; and the call that ran a computation during
@@ -208,6 +276,13 @@ def readOk (op : Op) (r : Res) (o : Outc) (fresh : Bool) : Bool :=
   | .error => r == readError o || (fresh && (match o with | .err e => r == .raised (.user e) | _ => false))
                || (fresh && r == .raised .alreadyComputed)
   | _ => false
+
+/-- `unsubscribe`: an unsubscribed handler is forgotten (it must not be notified by later completions); unsubscribing
+    a handler that is not subscribed raises and changes nothing -/
+def unsubStep (k : Kind) (w : Watch) (id : Nat) (r : Res) : Except String Watch :=
+  if k.sinking then (if r == .unit then .ok w else .error "unsubscribe")
+  else if hasSub w.subs id then (if r == .unit then .ok { w with subs := eraseSub w.subs id } else .error "unsubscribe")
+  else (if r == .raised .notSubscribed then .ok w else .error "unsubscribe")
 
 /-- one observation against the watch state; returns the clause that fails -/
 def watchStep (k : Kind) (w : Watch) (ob : Obs) : Except String Watch :=
@@ -220,9 +295,12 @@ def watchStep (k : Kind) (w : Watch) (ob : Obs) : Except String Watch :=
     | .reset =>
       if ob.after == none && ob.cbs.isEmpty && ob.runs == w.runs then
         .ok { w with known := none, resets := w.resets + 1 } else .error "reset"
-    | .subscribe id _ =>
-      if ob.after == some o && ob.cbs.isEmpty && ob.runs == w.runs then
-        .ok { w with subs := if k.sinking then w.subs else w.subs ++ [id] } else .error "single-assignment"
+    | .subscribe id b =>
+      if ob.after == some o && ob.cbs.isEmpty && ob.runs == w.runs && ob.res == .unit then
+        .ok { w with subs := if k.sinking then w.subs else w.subs ++ [(id, b)] } else .error "single-assignment"
+    | .unsubscribe id =>
+      if ob.after == some o && ob.cbs.isEmpty && ob.runs == w.runs then unsubStep k w id ob.res
+      else .error "single-assignment"
     | .setValue _ | .setError _ =>
       if ob.res != .raised .alreadyComputed then .error "failed-set-raises"
       else if ob.after != some o || !ob.cbs.isEmpty || ob.runs != w.runs then .error "failed-set-noop"
@@ -238,26 +316,31 @@ def watchStep (k : Kind) (w : Watch) (ob : Obs) : Except String Watch :=
     | .reset =>
       if ob.after == none && ob.cbs.isEmpty && ob.runs == w.runs then .ok { w with resets := w.resets + 1 }
       else .error "reset"
-    | .subscribe id _ =>
-      if ob.after == none && ob.cbs.isEmpty && ob.runs == w.runs then
-        .ok { w with subs := if k.sinking then w.subs else w.subs ++ [id] } else .error "subscribe"
+    | .subscribe id b =>
+      if ob.after == none && ob.cbs.isEmpty && ob.runs == w.runs && ob.res == .unit then
+        .ok { w with subs := if k.sinking then w.subs else w.subs ++ [(id, b)] } else .error "subscribe"
+    | .unsubscribe id =>
+      if ob.after == none && ob.cbs.isEmpty && ob.runs == w.runs then unsubStep k w id ob.res
+      else .error "subscribe"
     | .isComputed =>
       if ob.res == .bool false && ob.after == none && ob.cbs.isEmpty && ob.runs == w.runs then .ok w
       else .error "reads-stable"
     | .setValue v =>
       if ob.res == .unit && ob.after == some (.val v) && ob.runs == w.runs then
-        if notifiedAll w.subs ob.cbs (.val v) then .ok { w with known := some (.val v) } else .error "notify-once"
+        if notifiedAll w.subs ob.cbs (.val v) then .ok { w with known := some (.val v), subs := afterNotify w.subs }
+        else .error "notify-once"
       else .error "set"
     | .setError e =>
       if ob.res == .unit && ob.after == some (.err e) && ob.runs == w.runs then
-        if notifiedAll w.subs ob.cbs (.err e) then .ok { w with known := some (.err e) } else .error "notify-once"
+        if notifiedAll w.subs ob.cbs (.err e) then .ok { w with known := some (.err e), subs := afterNotify w.subs }
+        else .error "notify-once"
       else .error "set"
     | .value | .call | .error =>
       match ob.after with
       | some o =>
         if !readOk ob.op ob.res o true then .error "compute-read"
         else if !notifiedAll w.subs ob.cbs o then .error "notify-once"
-        else .ok { w with known := some o, runs := ob.runs }
+        else .ok { w with known := some o, runs := ob.runs, subs := afterNotify w.subs }
       | none =>
         -- only a future that has no computation (ConstFuture/ErrorFuture after reset_unsafe) may stay uncomputed
         if k.sinking && ob.res == .raised .notImplemented && ob.cbs.isEmpty && ob.runs == w.runs then .ok w
